@@ -28,6 +28,7 @@ def evStr : Ev → String
   | .actionNotFound => "action-not-found"
   | .capError => "cap-error"
   | .authReply n => s!"auth {n}"
+  | .silent => "ignored"
   | .badFrame => "closed-without-answer"
   | .dead => "dead"
 
